@@ -12,7 +12,7 @@ CHECKS = {
  "C01": dict(
    engine="E1-sweep", category="model_checking", ref="§3 C01",
    technique="exhaustive enumeration of all 2^32 random words per bound on the real code (scripted crypto/rand.Reader), histogram equality",
-   text="For each listed bound n, every one of the 2^32 possible first words (and continuations after rejected words) is run through the real randomUint32n; the per-outcome histogram must be exactly flat, fewer than half the words rejected, rejected words redrawn. This is a complete enumeration of the draw's input space for those n, which is the only way to see a 1-in-2^32 bias. Also: runs of 2 to 100000 rejected words must all be redrawn, and (boundary layer, every n<=2^12/2^16 and 2^k+-d) words delivered 1/2/3 bytes per read must give the same outcome.",
+   text="For each listed bound n, every one of the 2^32 possible first words (and continuations after rejected words) is run through the real randomUint32n; the per-outcome histogram must be exactly flat, fewer than half the words rejected, rejected words redrawn. This is a complete enumeration of the draw's input space for those n, which is the only way to see a 1-in-2^32 bias. A third layer sweeps all 2^32 values of the one random word that decides a coin flip, a word, a capitalised position, a character and a separator digit inside the real Generate (thorough: always; quick: when a boundary menu shows that the pick does not simply follow the swept primitive). Also: runs of 2 to 100000 rejected words must all be redrawn, and (boundary layer, every n<=2^12/2^16 and 2^k+-d) words delivered 1/2/3 bytes per read must give the same outcome.",
    note="Bounds outside the swept list get only the boundary-word layer (necessary conditions). Trusted: go1.23.5 crypto/rand.Read = io.ReadFull(Reader, b); the histogram code in /verif/harness/checks/c01.go."),
  "C02": dict(
    engine="E1-cells", category="model_checking", ref="§3 C02, §2.2",
@@ -27,8 +27,8 @@ CHECKS = {
  "C13": dict(
    engine="E1-cells", category="model_checking", ref="§3 C13",
    technique="exhaustive enumeration of recipe configurations and of a scripted all-attempts-fail random tape on the real Generate/SuccessProbability, against an exact rational model",
-   text="All recipes of the overlap universe and all 2^15 flag triples are run through the real SuccessProbability and Generate (panics recovered) and compared with the exact rational success probability and the refusal rule derived from it; degenerate character and wordlist values are enumerated; a tape policy on which every candidate fails checks the attempt budget under five (MaxTrials, MaxFailRate) settings. Degenerate wordlist recipes are crossed with every scheme and separator setting; a stream on which Generate never stops drawing is cut off and reported as a budget violation.",
-   note="Lengths bounded (1-8, 20 for flag triples); a rounding band around the refusal threshold is classified 'either'; recipes with a required set emptied by exclusion are 'either' (see DESIGN §4)."),
+   text="All recipes of the overlap universe and all 2^15 flag triples are run through the real SuccessProbability and Generate (panics recovered) and compared with the exact rational success probability and the refusal rule derived from it; degenerate character and wordlist values are enumerated; a tape policy on which every candidate fails checks the attempt budget under eight (MaxTrials, MaxFailRate) settings including a tolerated failure rate of 0; lengths up to 1000 (thorough 5000) cover entropies beyond 1024 bits. Degenerate wordlist recipes are crossed with every scheme and separator setting; a stream on which Generate never stops drawing is cut off and reported as a budget violation.",
+   note="Lengths bounded (1-8, 20 for flag triples, a sparse set up to 1000/5000 for six recipes); a rounding band around the refusal threshold is classified 'either'; recipes with a required set emptied by exclusion are 'either' (see DESIGN §4)."),
  "C03": dict(
    engine="E1-cells", category="model_checking", ref="§3 C03",
    technique="exhaustive enumeration of all 2^15 class-flag triples x custom settings, deviation-bounded exploration of the draws of the real Generate (each position forced to each alphabet index), token-level oracle from an independent model",
@@ -97,7 +97,7 @@ CHECKS = {
  "C14": dict(
    engine="E3-scheduler", category="model_checking", ref="§3 C14, §1 E3",
    technique="stateless deviation-bounded DFS over thread schedules of the real code under a controlled scheduler (futex hand-off invisible to the race detector), -race build of a source-instrumented copy; per-schedule result, snapshot, deadlock and race-report oracles",
-   text="Nine small harness bodies share one CharRecipe, WLRecipe, WordList, a constructed separator function and the package-level presets between 2-3 threads. Every schedule with at most 1 (quick) / 2 (thorough, two-thread scenarios) deviations from the default schedule, at statement granularity in package spg and lock granularity in golang-set, is executed. Because hand-offs create no happens-before edge, the race detector checks every explored schedule; results must equal each call's sequential result on its own random stream and shared values must be unchanged. 19 scenarios; every schedule starts from freshly built shared values and each scenario runs first (cold package state) in one worker.",
+   text="Nine small harness bodies share one CharRecipe, WLRecipe, WordList, a constructed separator function and the package-level presets between 2-3 threads. Every schedule with at most 1 (quick) / 2 (thorough, two-thread scenarios) deviations from the default schedule, at statement granularity in package spg and lock granularity in golang-set, is executed. Because hand-offs create no happens-before edge, the race detector checks every explored schedule; results must equal each call's sequential result on its own random stream and shared values must be unchanged. 28 scenarios (including recipes with overlapping required sets and runs under MaxTrials = 10 / 1000); every schedule starts from freshly built shared values and each scenario runs first (cold package state) in one worker.",
    note="Bounded deviations (preemptions and non-default thread choices both cost 1); trusts the Go race detector for raw access pairs; helper goroutines of golang-set's Iter() run free; Go memory-model effects beyond race reports are not modelled."),
 }
 
